@@ -53,7 +53,12 @@ type c03tok struct {
 	text string
 }
 
-func c03operandName(i int) string { return string(rune('a' + i)) }
+func c03operandName(i int) string {
+	if i < 26 {
+		return string(rune('a' + i))
+	}
+	return fmt.Sprintf("v%d", i)
+}
 
 // c03build renders the chain and builds the reference token list.
 func c03build(c c03Case) (text string, toks []c03tok) {
@@ -335,6 +340,50 @@ func c03run(r *ev.Run) {
 				run(c03Case{Ops: ops, ParenI: -1, ParenJ: -1})
 				run(c03Case{Ops: alt, ParenI: -1, ParenJ: -1})
 			})
+		}
+	}
+	// long left spines (a printer or parser that handles the first n levels of a spine specially) and many sibling
+	// groups on one spine (a nesting guard that counts groups instead of depth): one operator spelling per level
+	{
+		var reps []int
+		seenLevel := map[int]bool{}
+		for i, o := range c03ops {
+			if !o.regex && !seenLevel[o.level] {
+				seenLevel[o.level] = true
+				reps = append(reps, i)
+			}
+		}
+		for _, k := range []int{15, 16, 17, 18, 31, 32, 33, 34, 64, 65, 130} {
+			for _, op := range reps {
+				ops := make([]int, k)
+				for i := range ops {
+					ops[i] = op
+				}
+				run(c03Case{Ops: ops, ParenI: -1, ParenJ: -1})
+				// falling precedence first, then flat: the spine is entered through every level
+				ops2 := make([]int, k)
+				for i := range ops2 {
+					ops2[i] = op
+					if i < len(reps) {
+						ops2[i] = reps[i]
+					}
+				}
+				run(c03Case{Ops: ops2, ParenI: -1, ParenJ: -1})
+			}
+		}
+		for _, n := range []int{16, 17, 32, 33, 40, 70} {
+			for _, between := range reps {
+				ops := make([]int, 2*n-1)
+				var groups []int
+				for g := 0; g < n; g++ {
+					ops[2*g] = reps[1] // inside every group: an operator of the second level
+					if g > 0 {
+						ops[2*g-1] = between
+						groups = append(groups, 2*g, 2*g+1)
+					}
+				}
+				run(c03Case{Ops: ops, ParenI: 0, ParenJ: 1, Paren2: groups})
+			}
 		}
 	}
 	for k := 1; k <= bareK; k++ {
